@@ -121,3 +121,65 @@ def declare(reg):
     reg.contract(M, "TextFileOutput.__contains__", params=collections.OrderedDict(self=TFO, s=PY), returns=BOOL,
                  raises={"TypeError": "%s or (s is None and len(self.lines) > 0)" % BADS}, raise_frame="unchanged",
                  ensures=["result == exists(k, range(0, len(self.lines)), %s)" % LSEM.format(f="uf('search_of', U('LineSearch'), s, uf('const_all', U('CheckFn')))", l="self.lines[k]")])
+
+    # ------------------------------------------------------------------ time-based search: the inclusion state machine of get_after
+    DT, TD = U("DT"), U("TD")
+    PF = U("ParseFn")
+    reg.sort(DT=DT, TD=TD, ParseFn=PF)
+    reg.cls("DT", year=INT)
+    reg.cls("Regex")
+    reg.cls("Match", __truthy__=True)
+    reg.operators = {("DT", "Sub", "DT"): (TD, "dt_sub"), ("TD", "Gt", "TD"): (BOOL, "td_gt"), ("DT", "GtE", "DT"): (BOOL, "dt_ge"),
+                     # datetimes and timedeltas are totally ordered: the other comparisons are derived from >= / >
+                     ("DT", "Lt", "DT"): (BOOL, "dt_ge", "not"), ("DT", "LtE", "DT"): (BOOL, "dt_ge", "swap"), ("DT", "Gt", "DT"): (BOOL, "dt_ge", "notswap"),
+                     ("TD", "Lt", "TD"): (BOOL, "td_gt", "swap"), ("TD", "LtE", "TD"): (BOOL, "td_gt", "not"), ("TD", "GtE", "TD"): (BOOL, "td_gt", "notswap")}
+    reg.interface("DT", "replace", params=collections.OrderedDict(self=DT, year=INT), returns=DT, pure=True, raises={},
+                  ensures=["result == uf('dt_with_year', U('DT'), self, year)"],
+                  note="datetime.replace(year=y): a function of the stamp and the year (29 February in a non-leap year raises ValueError: not modelled)")
+    reg.interface("Regex", "search", params=collections.OrderedDict(self=Ref("Regex"), line=STR), returns=Opt(Ref("Match")), pure=True, raises={},
+                  ensures=["result == uf('ts_match', Opt(Ref('Match')), self, line)"], note="re.search: a pure function of pattern and line")
+    reg.interface("Match", "group", params=collections.OrderedDict(self=Ref("Match"), n=INT), returns=STR, pure=True, raises={},
+                  ensures=["result == uf('m_group', STR, self, n)"])
+    reg.callable_sorts["ParseFn"] = reg.external("<timestamp parser>", params=collections.OrderedDict(f=PF, text=STR), returns=DT, pure=True, raises={},
+                                                 ensures=["result == uf('parse_ts', U('DT'), f, text)"],
+                                                 note="strptime on a timestamp-shaped substring: total here (the property quantifies over logs whose "
+                                                      "timestamp-shaped substrings are valid dates in the parser's format)")
+    reg.external("datetime.timedelta", params=dict(days=INT), returns=TD, pure=True, ensures=["result == uf('td_days', U('TD'), days)"])
+    L = "self.lines[{k}]"
+    SEL = "(not truthy(s) or %s)" % LSEM.format(f="uf('search_of', U('LineSearch'), s, uf('const_all', U('CheckFn')))", l=L)
+    TS = "(time_re.search(%s) is not None)" % L
+    RAW = "parse_fn(time_re.search(%s).group(0))" % L
+    ADJ = "%s.replace(year=timestamp.year)" % RAW
+    # the year inference: a stamp without year gets the reference year, moved one year back / forward when that lands more than 330 days
+    # after / before the reference time
+    EFF = ("({raw} if logs_have_year else ({adj}.replace(year=timestamp.year - 1) if ({adj} - timestamp) > eleven_months else "
+           "({adj}.replace(year=timestamp.year + 1) if (timestamp - {adj}) > eleven_months else {adj})))").format(raw=RAW, adj=ADJ)
+    LATER = "(%s >= timestamp)" % EFF
+    SELTS = "(%s and %s)" % (SEL, TS)
+    # lt[k]: the last selected, timestamped line before line k (-1: none)
+    LT_OK = ("(0 - 1 <= {v} and {v} < {k} and implies({v} >= 0, %s) and forall(m, range({v} + 1, {k}), not %s))"
+             % (SELTS.format(k="{v}"), SELTS.format(k="m")))
+    # line k is returned iff it is selected and: it carries a time stamp at or after the given time, or it carries none and the last
+    # selected time-stamped line before it was returned (continuation lines)
+    INC = "(%s and (%s if %s else (lt[{k}] >= 0 and %s)))" % (SEL, LATER, TS, LATER.format(k="lt[{k}]"))
+    GA = ["it_0 == self.lines", "len(lt) == i_0", "eleven_months == uf('td_days', U('TD'), 330)",
+          "(search_by_expression is None) == (s is None) and implies(s is not None, some(search_by_expression) == uf('search_of', U('LineSearch'), s, uf('const_all', U('CheckFn'))))",
+          "forall(k, range(0, i_0), %s)" % LT_OK.format(v="lt[k]", k="k"),
+          LT_OK.format(v="last", k="i_0"),
+          "including_lines == (last >= 0 and %s)" % LATER.format(k="last"),
+          "len(yi) == len(yields_)",
+          "forall(a, range(0, len(yi)), forall(b, range(0, len(yi)), implies(a < b, yi[a] < yi[b])))",
+          "forall(m, range(0, len(yi)), 0 <= yi[m] and yi[m] < i_0 and yields_[m] == uf('pl', U('ParsedLine'), self, self.lines[yi[m]]))",
+          "forall(k, range(0, i_0), exists(m, range(0, len(yi)), yi[m] == k) == %s)" % INC.format(k="k")]
+    reg.contract(M, "LogFileOutput.get_after", params=collections.OrderedDict(self=TFO, timestamp=DT, s=PY), defaults=dict(s="None"), yields=PL,
+                 from_stmt="eleven_months = datetime.timedelta(days=330)",
+                 locals=collections.OrderedDict(time_re=Ref("Regex"), parse_fn=PF, logs_have_year=BOOL, eleven_months=TD, including_lines=BOOL,
+                                                search_by_expression=Opt(LS), lt=List(INT), yi=List(INT), last=INT, logstamp=DT),
+                 ghosts=collections.OrderedDict(lt=(List(INT), "[]"), yi=(List(INT), "[]"), last=(INT, "0 - 1")),
+                 ghost_on=[("continue", "lt.append(last)", "before"), ("match = time_re.search(line)", "lt.append(last)", "before"),
+                           # len(lt) - 1 is the index of the current line (lt got its entry for this line already); before the loop it is -1
+                           ("including_lines = True", "last = len(lt) - 1", "after"), ("including_lines = False", "last = len(lt) - 1", "after"),
+                           ("yield self._parse_line(line)", "yi.append(len(lt) - 1)", "after")],
+                 loops={0: GA},
+                 raises={"TypeError": BADS}, raise_frame="unchanged",
+                 ensures=[t.replace("i_0", "len(self.lines)") for t in GA[4:6] + GA[7:]] + ["len(lt) == len(self.lines)", "seq_eq(result, yields_)"])
